@@ -72,3 +72,80 @@ class State:
     @property
     def env(self):
         return self.frames[-1]
+
+
+def _vkey(v):
+    k = getattr(v, "kind", None)
+    if k == "int":
+        return ("i", v.lo, v.hi, v.sym)
+    if k == "str":
+        return ("s", v.vals, v.sym, v.nonempty)
+    if k == "none":
+        return ("n",)
+    if k == "enum":
+        return ("e", v.cls, v.names)
+    if k == "ref":
+        return ("r", v.oid)
+    if k == "bool":
+        return ("b", v.value, v.sym)
+    return ("o", id(v))
+
+
+def fingerprint(st):
+    fr = []
+    for f in st.frames:
+        fr.append(tuple(sorted((k, _vkey(v)) for k, v in f.items() if k != "__cur_exc__")))
+    hp = []
+    for oid in sorted(st.heap):
+        o = st.heap[oid]
+        hp.append((oid, o.cal, tuple(sorted((k, _vkey(v)) for k, v in o.attrs.items()))))
+    cf = tuple(sorted((k, v) for k, v in st.cfg.items()))
+    return (tuple(fr), tuple(hp), cf, frozenset(st.checked), st.next_oid)
+
+
+def merge_states(states):
+    """Merge states that agree on everything but the path condition: the merged
+    condition is the common prefix plus the disjunction of the differing tails."""
+    if len(states) < 2:
+        return states
+    groups = {}
+    order = []
+    for s in states:
+        try:
+            k = fingerprint(s)
+        except TypeError:
+            k = id(s)
+        if k not in groups:
+            groups[k] = []
+            order.append(k)
+        groups[k].append(s)
+    out = []
+    for k in order:
+        g = groups[k]
+        if len(g) == 1:
+            out.append(g[0])
+            continue
+        base = g[0]
+        n = min(len(x.conds) for x in g)
+        i = 0
+        while i < n and all(x.conds[i] == base.conds[i] for x in g):
+            i += 1
+        tails = tuple(tuple(x.conds[i:]) for x in g)
+        if any(len(t) == 0 for t in tails):
+            base.conds = list(base.conds[:i])
+        else:
+            base.conds = list(base.conds[:i]) + [(("anyof", tails), True)]
+        j = 0
+        m = min(len(x.rels) for x in g)
+        while j < m and all(x.rels[j] == base.rels[j] for x in g):
+            j += 1
+        base.rels = list(base.rels[:j])
+        for x in g[1:]:
+            for e in x.effects:
+                if not any(e.construct == y.construct and e.obj_sym == y.obj_sym for y in base.effects):
+                    base.effects.append(e)
+            for u in x.undecided:
+                if u not in base.undecided:
+                    base.undecided.append(u)
+        out.append(base)
+    return out
